@@ -1,5 +1,5 @@
 """C07 - compile-time gate: valid RFC queries accepted, ill-typed or out-of-range refused
-(spec: Typing.tla, Render.tla, MC_Typing.tla).
+(spec: Typing.tla, Render.tla, MC_Typing.tla; Lexer.tla, Parser.tla, ParseBack.tla, MC_ParseRender.tla).
 
 TLC judges every program of the universes with the RFC 9535 2.4.3 typing rules and the
 syntactic side conditions (each well- or ill-typed construct placed at every position of a
@@ -22,6 +22,8 @@ CFG = """CONSTANTS Universe = "{universe}"
  Hi = {hi}
 SPECIFICATION Spec
 INVARIANT Soundness
+INVARIANT VerdictsAgree
+INVARIANT ParseRenderIsIdentity
 INVARIANT Export
 PROPERTY Terminates
 """
@@ -141,7 +143,7 @@ def run(chk: Check, tier: str, seed: int) -> None:
     recs: List[Dict[str, Any]] = []
     plan = [("positions", None), ("selectors", None), ("selectors", [-5, 5]), ("selectors", [-3, 10]), ("selectors", [-10, 3]), ("selectors", [0, 5]), ("selectors", [-5, 0])] + ([("pairs", None)] if tier == "thorough" else [])
     for u, narrow in plan:
-        r = tlc("MC_Typing", CFG.format(universe=u, lo=-narrow[0] if narrow else 100, hi=narrow[1] if narrow else 100), timeout=3000)
+        r = tlc("MC_ParseRender", CFG.format(universe=u, lo=-narrow[0] if narrow else 100, hi=narrow[1] if narrow else 100), timeout=3000)
         chk.add_tlc(r)
         for x in r.records:
             x["narrow"] = narrow
@@ -176,6 +178,8 @@ def run(chk: Check, tier: str, seed: int) -> None:
     for rec in recs[3:6] + recs[-3:]:
         chk.sample({"query": untext(rec["texts"][0]), "spec_accepts": rec["accept"], "narrow_limits": rec["narrow"]})
     chk.exhaustive = True
+    chk.extra["spec_front_end"] = ("MC_ParseRender: for every program and spelling TLC lexes the rendered text (Lexer.tla), parses the tokens (Parser.tla) and "
+                                   "checks that the parser's verdict is the typing verdict and that the tree of an accepted program is the program (ParseBack.tla)")
     chk.rule = ("terminal states of MC_Typing.tla: 13 well-typed and 27 ill-typed constructs (non-singular or logical-typed comparison operands, value-typed "
                 "tests, arity, argument kinds, unknown functions, uncompared literals) in 11 positions (top level, under !, in parentheses, either side of && / ||, "
                 "nested filters, descendant segments) (thorough: all pairs), selectors with leading zeros / empty or comma-terminated lists / bounds at, inside and "
